@@ -379,6 +379,51 @@ def diff_samplesets(a, b, what):
     return diff_info(f"{what}: info", a.info, b.info)
 
 
+class ArrayTable:
+    """numbers arrays: equal dtype, shape and values -> the same number"""
+    def __init__(self):
+        self.items = []
+
+    def idx(self, a):
+        for k, b in enumerate(self.items):
+            if a.dtype == b.dtype and a.shape == b.shape and a.tolist() == b.tolist():
+                return k
+        self.items.append(a)
+        return len(self.items) - 1
+
+
+ARRAY_DOC_KEYS = ["type", "data", "data_type", "shape", "use_bytes"]
+
+
+def coq_info(x, AT, emitted=False):
+    """python info value -> Coq `tree nat nat` term.  In an emitted document a dict with exactly the
+    entries of serialize_ndarray's result is rendered as type='array' + the payload leaf of its array."""
+    if isinstance(x, np.ndarray):
+        return f"(iArr {cnat(AT.idx(x))})"
+    if isinstance(x, (bool, np.bool_)):
+        return f"(iBool {cbool(bool(x))})"
+    if isinstance(x, (int, np.integer)):
+        return f"(iInt {cz(int(x))})"
+    if isinstance(x, (float, np.floating)):
+        return f"(iFloat {cq(Fraction(float(x)))})"
+    if isinstance(x, str):
+        return f"(iStr {coq_str(x)})"
+    if x is None:
+        return "iNone"
+    if isinstance(x, (list, tuple)):
+        return f"(iList {clist([coq_info(y, AT, emitted) for y in x])})"
+    if isinstance(x, dict):
+        if emitted and list(x.keys()) == ARRAY_DOC_KEYS and x["type"] == "array":
+            a = decode_ndarray_doc(x)
+            return "(iDict %s)" % clist([cpair(coq_str("type"), "(iStr %s)" % coq_str("array")),
+                                         cpair(coq_str("payload"), f"(iDoc {cnat(AT.idx(a))})")])
+        for k in x:
+            if not isinstance(k, str):
+                raise AssertionError(f"non-string key {k!r}")
+        return "(iDict %s)" % clist([cpair(coq_str(k), coq_info(v, AT, emitted)) for k, v in x.items()])
+    raise AssertionError(f"unexpected info value {x!r}")
+
+
 def coq_rows(arr):
     return clist([clist([cq(Fraction(x)) for x in row]) for row in arr.tolist()])
 
@@ -662,6 +707,12 @@ def run_ss(c):
                      f"{clist([coq_lbl(l, True) for l in doc2['variable_labels']])} {clist([coq_lbl(l) for l in new.variables])})")
     except AssertionError as e:
         py_fail = py_fail or f"labels cannot be rendered: {e}"
+    try:
+        # the info field, decided by the Coq walk (Model/InfoSer.v) like the samples
+        AT = ArrayTable()
+        extra.append(f"(KInfo {coq_info(ss.info, AT)} {coq_info(doc2['info'], AT, True)} {coq_info(new.info, AT)})")
+    except (AssertionError, KeyError, ValueError, TypeError) as e:
+        py_fail = py_fail or f"info cannot be rendered: {type(e).__name__}: {e}"
     route = c["route"]
     if route != 'none':
         try:
